@@ -291,10 +291,10 @@ pub fn rewrites<T: Fam>(doc: &str) -> Vec<Rewrite> {
         // R9: unknown attribute (not where attributes are data: maps, $value catch-alls)
         if T::IGNORES_UNKNOWN_CHILDREN && T::NAME != "MapHolder" {
             let tag = &s[t.content.clone()];
-            if !tag.windows(4).any(|w| w == b" zz=") {
+            if !has_attr_key(tag, b"zz") {
                 push("unknown attribute", t.content.end, splice(s, t.content.end, 0, b" zz=\"1\""));
             }
-            if !tag.windows(4).any(|w| w == b" zy=") {
+            if !has_attr_key(tag, b"zy") {
                 push("unknown attribute first", t.content.start + t.name_len, splice(s, t.content.start + t.name_len, 0, b" zy='&lt;'"));
             }
         }
@@ -361,10 +361,20 @@ fn char_refs(doc: &str, a: usize, b: usize, push: &mut impl FnMut(&'static str, 
     }
 }
 
-fn sweep<T: Fam>(ctx: &Ctx, ln: u32, level: usize, pair_limit: usize) {
+/// `key` occurs in the tag content as an attribute key (followed by optional blanks and `=`)
+fn has_attr_key(tag: &[u8], key: &[u8]) -> bool {
+    (0..tag.len().saturating_sub(key.len())).any(|i| {
+        tag[i..].starts_with(key)
+            && i > 0
+            && tag[i - 1].is_ascii_whitespace()
+            && tag[i + key.len()..].iter().find(|b| !b.is_ascii_whitespace()) == Some(&b'=')
+    })
+}
+
+fn sweep<T: Fam>(ctx: &Ctx, ln: u32, level: usize, pair_limit: usize, triple_limit: usize) {
     let vals = T::values(level);
     let seed = ctx.seed;
-    ctx.layer(T::NAME, ln, vals.len() as u64, json!({"values": vals.len(), "pairs_on_documents_up_to_bytes": pair_limit}), |i, acc| {
+    ctx.layer(T::NAME, ln, vals.len() as u64, json!({"values": vals.len(), "pairs_on_documents_up_to_bytes": pair_limit, "triples_on_documents_up_to_bytes": triple_limit}), |i, acc| {
         let v = &vals[i as usize];
         let Ok(base) = ser(v, SerCfg::plain()) else { return };
         // only documents that round-trip are a base (C06 owns the others)
@@ -427,6 +437,11 @@ fn sweep<T: Fam>(ctx: &Ctx, ln: u32, level: usize, pair_limit: usize) {
             for r1 in &singles {
                 for r2 in rewrites::<T>(&r1.doc) {
                     check(acc, format!("{} @{}, then {} @{}", r1.name, r1.at, r2.name, r2.at), &r2.doc);
+                    if base.len() <= triple_limit {
+                        for r3 in rewrites::<T>(&r2.doc) {
+                            check(acc, format!("{} @{}, then {} @{}, then {} @{}", r1.name, r1.at, r2.name, r2.at, r3.name, r3.at), &r3.doc);
+                        }
+                    }
                 }
             }
         }
@@ -444,17 +459,18 @@ pub fn run(ctx: &Ctx) {
          reference; <x/> <-> <x></x>; every permutation of up to 3 attributes; quote kind swapped where the value allows; blanks, tab and CRLF around \
          `=`, newline+tab between attributes; XML declaration, DOCTYPE, leading and trailing comment; unknown attribute (first / last) on every tag and unknown child \
          (4 shapes) as first / last child of the root, for types that ignore unknown fields. All single rewrites, and all ordered pairs \
-         (second rewrite computed on the rewritten document) for base documents up to the pair limit. Oracle: from_str(rewritten) == \
+         (second rewrite computed on the rewritten document) for base documents up to the pair limit; thorough: also all ordered triples for base documents up to 48 bytes. Oracle: from_str(rewritten) == \
          value. non-trivial = every rewritten document; distinct by construction. states = (type, rewrite kind) pairs exercised",
     );
     ctx.assume("blank characters are never replaced by references (a blank may be a simple-list separator); unknown attributes / children are not added where they are data (maps, $value catch-alls)");
     let t = ctx.tier;
     let level = t.pick(0, 1);
     let pair_limit = t.pick(64, 110);
+    let triple_limit = t.pick(0, 48);
     let mut ln = 0;
     let only = std::env::var("QXMC_ONLY").ok();
     macro_rules! go {
-        ($($ty:ident),*) => { $( if only.as_deref().map_or(true, |o| o == <$ty as Fam>::NAME) { sweep::<$ty>(ctx, ln, level, pair_limit); } ln += 1; )* };
+        ($($ty:ident),*) => { $( if only.as_deref().map_or(true, |o| o == <$ty as Fam>::NAME) { sweep::<$ty>(ctx, ln, level, pair_limit, triple_limit); } ln += 1; )* };
     }
     crate::for_each_type!(go);
     let _ = ln;
